@@ -24,6 +24,9 @@ sys.path.insert(0, os.path.join(os.path.dirname(os.path.dirname(os.path.abspath(
 import vlib  # noqa: E402
 
 KINDS = ["ai", "ap", "asy", "ao", "fm", "lsp", "c", "java", "main"]
+# "h": the common header <unit>.h of a C output split into several files (-Csmax=<n>); it is not asked for by an -F option
+# of its own: it is due whenever "c" is requested and the unit is split (emit.c:emitTheC)
+KINDS_ALL = KINDS + ["h"]
 ERR_LINE = re.compile(rb"\((?:Fatal )?Error\)")
 MODEL_EVENTS = {"FileStart", "FileEnd", "PhStart", "PhEnd", "Msg", "OutOpen", "OutClose", "Cleanup",
                 "Link", "InterpEnd", "Exit"}
@@ -91,7 +94,7 @@ def run_traced(build, cwd, srcs, kinds, outs, refs=None, kind_args=None, extra_a
     r.label = dict(label or {})
     args = []
     for k in kinds:
-        args.append((kind_args or {}).get(k, "-F" + k))
+        args.append("-Csmax=1" if k == "h" else (kind_args or {}).get(k, "-F" + k))
     args += list(extra_args) + list(srcs)
     with _lock:
         _seq[0] += 1
@@ -159,7 +162,7 @@ def run_traced(build, cwd, srcs, kinds, outs, refs=None, kind_args=None, extra_a
     if hook_prefix:     # the compiler's own working directory is cwd/hook_prefix
         path2out.update({os.path.normpath(os.path.relpath(p, hook_prefix)): fk for fk, p in outs.items()})
     nfiles = len(srcs)
-    evs = [{"ev": "Reset", "nfiles": nfiles, "requested": [k for k in KINDS if k in kinds], "post": list(post),
+    evs = [{"ev": "Reset", "nfiles": nfiles, "requested": [k for k in KINDS_ALL if k in kinds], "post": list(post),
             "hooks": bool(hooks)}]
     for e in raw:
         n = e.get("ev")
@@ -173,7 +176,7 @@ def run_traced(build, cwd, srcs, kinds, outs, refs=None, kind_args=None, extra_a
         if n not in MODEL_EVENTS:
             r.dropped.append(e)
             continue
-        if n in ("OutOpen", "OutClose", "Cleanup") and e.get("kind") not in KINDS:
+        if n in ("OutOpen", "OutClose", "Cleanup") and e.get("kind") not in (KINDS_ALL if "h" in kinds else KINDS):
             r.dropped.append(e)
             continue
         evs.append(e)
